@@ -18,6 +18,10 @@ TARGET_TEXT = {"none": None, "plain": 'target: "tgt"', "comma": 'target: "a,b;c"
 
 KV_TEXT = {
     "int": "{k} = 1", "id": "{k} = x", "str": '{k} = "s"', "strsemi": '{k} = "a;b,c"', "short": "x",
+    "strkey": '"key {k}" = 1', "strkeydbg": '"key {k}":? = x',     # the log crate also takes string literals as keys
+    # keys that look like other parts of the syntax: a key named target, keys that begin with `ref`
+    "keytarget": "target = x", "keytargetdbg": "target:? = x", "refprefix": "referrer = x", "refprefixnum": "ref_count = 3",
+    "refprefixdbg": "refs:? = x",
     "dbg": "{k}:? = x", "debug": "{k}:debug = x", "disp": "{k}:% = x", "display": "{k}:display = x",
     "shortdbg": "x:?", "err": "{k}:err = e", "sval": "{k}:sval = x", "serde": "{k}:serde = x",
     "ref=7": "ref = 7", "ref=0": "ref = 0", "ref=max": "ref = 4294967295", "ref=07": "ref = 07", "ref=x": "ref = x",
@@ -36,7 +40,9 @@ MSG_TEXT = {
 }
 
 GAP = {"tight": "", "space": " ", "newline": "\n        ", "crlf": "\r\n        ", "blockcomment": " /* c, d; e */ ",
-       "linecomment": " // c, d; e\n        ", "tabs": "\t"}
+       "linecomment": " // c, d; e\n        ", "tabs": "\t",
+       # the other characters Rust treats as white space: form feed / vertical tab; NEL, LRM, line and paragraph separator
+       "formfeed": " \x0c\x0b ", "unicodews": " \u0085\u200e\u2028\u2029 "}
 
 CONTEXT = {
     "linestart": ("", ";"), "indent": ("    ", ";"), "brace": ("    { ", "; }"), "arrow": ("    match x { _ => ", ", }"),
@@ -106,9 +112,9 @@ def render_case(case, uid, macroset=None):
         allmods.update([mv] if isinstance(mv, str) else mv)
     others = sorted(allmods - set(mods)) or ["other"]
     name = {"bare": macro, "qualified": mod + "::" + macro, "crossmod": others[uid % len(others)] + "::" + macro, "unconfigured": "debug", "prefix": macro + "_extra",
-            "suffix": "my_" + macro, "othermod": "other::" + macro, "submod": mod + "::sub::" + macro,
+            "suffix": "my_" + macro, "othermod": "other::" + macro, "modplus1": "x" + mod + "::" + macro, "modminus1": mod[1:] + "::" + macro, "submod": mod + "::sub::" + macro,
             "shortmod": "l::" + macro, "noliteral": macro, "noargs": macro, "linecomment": macro,
-            "blockcomment": macro, "doccomment": macro, "instring": macro, "starcomment": macro, "bannercomment": macro, "upper": macro.upper(),
+            "blockcomment": macro, "doccomment": macro, "instring": macro, "instringopen": macro, "rawstring": macro, "starcomment": macro, "bannercomment": macro, "upper": macro.upper(),
             "crateprefixed": "crate::" + mod + "::" + macro}.get(head)
     if name is None:
         raise ToolError("unknown head " + head)
@@ -119,8 +125,10 @@ def render_case(case, uid, macroset=None):
     def cur():
         return sum(len(x) for x in out)
     # the inter-token layout also applies between the `!` and the opening parenthesis (every second statement)
-    hg = g if (uid % 2 == 0 and head not in ("linecomment", "blockcomment", "doccomment", "instring", "starcomment", "bannercomment")) else ""
-    out.append(name + "!" + hg + "(")
+    commentish = head in ("linecomment", "blockcomment", "doccomment", "instring", "instringopen", "rawstring", "starcomment", "bannercomment")
+    hg = g if (uid % 4 == 0 and not commentish) else ""          # between `!` and `(`
+    hb = g if (uid % 4 == 2 and not commentish) else ""          # between the name and `!`
+    out.append(name + hb + "!" + hg + "(")
     gap_start = cur()
     if head == "noargs":
         out.append(")")
@@ -160,6 +168,15 @@ def render_case(case, uid, macroset=None):
         inner = call.replace("\\", "\\\\").replace('"', '\\"').replace("\n", " ").replace("\r", " ")
         body = '    let _s%d = "call %s here";' % (uid, inner)
         stmt_off = None
+    elif head == "instringopen":
+        # string literals on one line: one with an odd number of escaped quotes, one that ends with `name!(`, and a
+        # further one (what a skipped-string rule that forgets about escapes would mis-pair)
+        body = '    let _a%d = "3.5\\" floppy"; let _b%d = "%s::%s!("; let _c%d = "tail %d";' % (uid, uid, mod, macro, uid, uid)
+        stmt_off = None
+    elif head == "rawstring":
+        inner = call.replace("\n", " ").replace("\r", " ")
+        body = '    let _r%d = r##"raw %s "# here"##;' % (uid, inner)
+        stmt_off = None
     else:
         body = pre + call + suf
         stmt_off = len(lines_before) + len(pre)
@@ -180,24 +197,54 @@ def render_case(case, uid, macroset=None):
     return r
 
 
+_LONE_LF = re.compile(r"(?<!\r)\n")
+
+
+def _to_crlf(text):
+    return _LONE_LF.sub("\r\n", text)
+
+
+def _crlfify(r):
+    """convert a rendered item to CRLF line endings, moving its recorded offsets along"""
+    if getattr(r, "line0", None) is True:
+        return
+    t = r.text
+
+    def shift(off):
+        return None if off is None else off + len(_LONE_LF.findall(t[:off]))
+    r.msg_off = shift(r.msg_off)
+    r.stmt_off = shift(r.stmt_off)
+    if r.kv_allowed is not None:
+        r.kv_allowed = [shift(o) for o in r.kv_allowed]
+    r.text = _to_crlf(t)
+    r.line0 = True
+
+
 class Pack:
     """A generated source file holding many rendered statements."""
 
-    def __init__(self, name, header=True, bom=False):
+    def __init__(self, name, header=True, bom=False, crlf=False):
         self.name = name
         self.bom = bom
+        self.crlf = crlf          # the whole file has CRLF line endings
         self.parts = ["// generated by the verification harness: %s\nuse log::{info, warn, error};\n\npub fn f() {\n    let x = 1; let y = 2;\n" % name] if header else [""]
         if bom:
             self.parts[0] = "\ufeff" + self.parts[0]
+        if crlf:
+            self.parts[0] = _to_crlf(self.parts[0])
         self.items = []
         self.nchars = len(self.parts[0])
 
     def filler(self, text):
+        if self.crlf:
+            text = _to_crlf(text)
         self.parts.append(text)
         self.nchars += len(text)
 
     def add_inline(self, r):
         """add an item without the separator lines (the caller controls the surrounding lines)"""
+        if self.crlf:
+            _crlfify(r)
         r.start = self.nchars
         self.parts.append(r.text)
         self.nchars += len(r.text)
@@ -205,11 +252,13 @@ class Pack:
         self.items.append(r)
 
     def add(self, r):
+        if self.crlf:
+            _crlfify(r)
         r.start = self.nchars
         self.parts.append(r.text)
         self.nchars += len(r.text)
         r.end = self.nchars
-        sep = "    let _sep = 0;\n\n"
+        sep = "    let _sep = 0;\n\n" if not self.crlf else "    let _sep = 0;\r\n\r\n"
         self.parts.append(sep)
         self.nchars += len(sep)
         self.items.append(r)
@@ -217,14 +266,16 @@ class Pack:
     def finish(self, tail=None):
         if tail is not None:
             # the file ends with this item and has no trailing newline
-            tail.text = tail.text.rstrip("\n")
+            if self.crlf:
+                _crlfify(tail)
+            tail.text = tail.text.rstrip("\r\n")
             tail.start = self.nchars
             self.parts.append(tail.text)
             self.nchars += len(tail.text)
             tail.end = self.nchars + 1
             self.items.append(tail)
         else:
-            self.parts.append("}\n")
+            self.parts.append("}\r\n" if self.crlf else "}\n")
         self.text = "".join(self.parts)
         self.data = self.text.encode("utf-8")
         # char offset -> byte offset
